@@ -441,8 +441,12 @@ def effect_programs():
         ("dbg!(unwrap(witness::O))", {"O": ("O", U8)}, "u8", ""),
         ("<u8>::into(unwrap(witness::O))", {"O": ("O", U8)}, "u8", ""),
         ("Some(unwrap(witness::O))", {"O": ("O", U8)}, "Option<u8>", ""),
+        # the failure sits in the body of a function that a fold / loop / call applies
+        ("fold::<fd, 4>(witness::L, 7)", {"L": ("L", B, 2)}, "u8", "fn fd(e: bool, a: u8) -> u8 { assert!(e); a }\n"),
+        ("for_while::<lp>(witness::B, ())", {"B": B}, "Either<u8, bool>", "fn lp(a: bool, c: (), i: u2) -> Either<u8, bool> { assert!(a); Right(a) }\n"),
+        ("twice(witness::O)", {"O": ("O", U8)}, "u8", "fn once(o: Option<u8>) -> u8 { unwrap(o) }\nfn twice(o: Option<u8>) -> u8 { once(o) }\n"),
     ]
-    pats = {"u8": ["_"], "bool": ["_"], "()": ["_", "()"], "(u8, bool)": ["_", "(_, _)"], "[u8; 2]": ["_", "[_, _]"], "(u8, ())": ["_", "(_, _)", "(_, ())"], "Option<u8>": ["_"]}
+    pats = {"Either<u8, bool>": ["_"], "u8": ["_"], "bool": ["_"], "()": ["_", "()"], "(u8, bool)": ["_", "(_, _)"], "[u8; 2]": ["_", "[_, _]"], "(u8, ())": ["_", "(_, _)", "(_, ())"], "Option<u8>": ["_"]}
     places = [
         ("main", "%(fns)sfn main() { let %(p)s: %(t)s = %(e)s; }"),
         ("main-then", "%(fns)sfn main() { let %(p)s: %(t)s = %(e)s; let k: u8 = 1; assert!(jet::eq_8(k, 1)); }"),
